@@ -212,7 +212,7 @@ def setup(ctx):
 def run(ctx):
     ctx.enumerate(ctx.p_grid, grid_cases(ctx), batch=100, name="3 rules x 8 match subsets x output arrangements x hit policies",
                   exhaustive=True)
-    ctx.forall(ctx.p_tables, ctx.scale(9000, 100000), batch=100)
+    ctx.forall(ctx.p_tables, ctx.scale(9000, 300000), batch=100)
 
 
 if __name__ == "__main__":
